@@ -498,6 +498,9 @@ def batch_for_schema(rng, schema, root=None, count=8, lookalikes=True):
             out.append(satisfy(rng, schema, root, tries=2))
         else:
             out.append(random_value(rng, 2))
+    if rng.random() < 0.5:
+        # a sweep of small numbers / short strings: cheap, and decisive for overlapping compositions
+        out += rng.sample([-3, -1, 0, 1, 2, 3, 4, 5, 6, 7, 8, 9, 10, 11, 12, 2.0, 4.5, "a", "ab", "abc", "abab", "b"], k=6)
     return out
 
 
